@@ -83,10 +83,13 @@ namespace nmtools::index
                 // TODO: check if divisible
                 at(result,i) = at(src_shape,i);
             }
-            auto group_axis = meta::ct_v<1>;
-            auto outch_axis = meta::ct_v<0>;
+            // NOTE: output channel o belongs to group o / (O/groups) (contiguous blocks, as PyTorch),
+            // so the group axis is the leading one; convnd swaps it behind the per-group output channel
+            auto group_axis = meta::ct_v<0>;
+            auto outch_axis = meta::ct_v<1>;
+            auto n_output   = at(src_shape,meta::ct_v<0>);
             at(result,group_axis) = groups;
-            at(result,outch_axis) = at(src_shape,outch_axis) / groups;
+            at(result,outch_axis) = n_output / groups;
         }
 
         return result;
@@ -117,11 +120,12 @@ namespace nmtools::index
                 at(result,-i) = at(src_shape,-i);
             }
             
-            auto group_axis = meta::ct_v<2>;
-            auto outch_axis = meta::ct_v<1>;
+            // src is (batch, groups, output channels per group, planes...)
+            auto group_axis = meta::ct_v<1>;
+            auto outch_axis = meta::ct_v<2>;
             auto batch_axis = meta::ct_v<0>;
             at(result,batch_axis) = at(src_shape,batch_axis);
-            at(result,outch_axis) = at(src_shape,outch_axis) * at(src_shape,group_axis);
+            at(result,meta::ct_v<1>) = at(src_shape,outch_axis) * at(src_shape,group_axis);
         }
 
         return result;
@@ -729,6 +733,7 @@ namespace nmtools::meta
 #include "nmtools/array/view/ufuncs/multiply.hpp"
 #include "nmtools/array/view/sum.hpp"
 #include "nmtools/array/view/reshape.hpp"
+#include "nmtools/array/view/swapaxes.hpp"
 #include "nmtools/array/view/slice.hpp"
 #include "nmtools/array/view/expand.hpp"
 #include "nmtools/array/view/pad.hpp"
@@ -751,7 +756,9 @@ namespace nmtools::view
             auto src_shape = shape<true>(weight);
             auto dst_shape = index::conv_reshape_weight(src_shape,groups,n_planes);
             // TODO:: error handling
-            auto reshaped_weight = unwrap(view::reshape(nmtools::get<1>(aliased),dst_shape));
+            auto grouped_weight  = unwrap(view::reshape(nmtools::get<1>(aliased),dst_shape));
+            // (groups, out/groups, in/groups, kernel...) -> (out/groups, groups, in/groups, kernel...)
+            auto reshaped_weight = unwrap(view::swapaxes(grouped_weight,0,1));
             if constexpr (is_none_v<dilation_t>) {
                 return reshaped_weight;
             } else {
@@ -808,10 +815,12 @@ namespace nmtools::view
             , keepdims
         );
 
-        auto sum_src_shape = shape<true>(sum_result);
+        // (batch, out/groups, groups, planes...) -> (batch, groups, out/groups, planes...): channels of a group are contiguous
+        auto grouped_sum   = view::swapaxes(unwrap(sum_result),1,2);
+        auto sum_src_shape = shape<true>(grouped_sum);
         // TODO: propagate error handling
         auto sum_dst_shape = index::conv_reshape_reduce(unwrap(sum_src_shape),groups,n_planes);
-        auto reshaped_sum  = view::reshape(sum_result,sum_dst_shape);
+        auto reshaped_sum  = view::reshape(grouped_sum,sum_dst_shape);
 
         auto add_result = [&](){
             if constexpr (!is_none_v<bias_t>) {
